@@ -122,3 +122,55 @@ package io
 //@   ensures[count_new] err == nil && blockMode(d) && old(namedBytes(d.node, name)) == 0 ==> d.totalLinks == old(d.totalLinks) + 1
 //@   ensures[count_replace] err == nil && blockMode(d) && old(namedBytes(d.node, name)) > 0 ==> d.totalLinks == old(d.totalLinks)
 //@   ensures[maxlinks] err == nil && old(namedBytes(d.node, name)) == 0 && d.maxLinks > 0 ==> old(d.totalLinks) + 1 <= d.maxLinks
+
+// ---- C16: configuration survives Basic <-> HAMT conversions; sharding rule ---------------
+// per-directory HAMT sharding threshold of whichever implementation a Directory value holds
+//@ macro shardSizeOf(x) = ite(typeis(x, "*HAMTDirectory"), unbox(x, "*HAMTDirectory").hamtShardingSize, unbox(x, "*BasicDirectory").hamtShardingSize)
+//@ macro isDirImpl(x) = typeis(x, "*HAMTDirectory") || typeis(x, "*BasicDirectory")
+
+// a freshly built directory has no per-directory threshold (it is not a DirectoryOption)
+//@ func (*HAMTDirectory).switchToBasic
+//@   assumed
+//@   ensures err == nil ==> result0 != nil && result0.hamtShardingSize == 0 && result0.node != nil
+// (the converted directory is built with NewBasicDirectory + addLinkChild, which establish the C17 invariant)
+//@   ensures err == nil ==> estInv(result0) && estSmall(result0) && all(nm string, 0 <= namedBytes(result0.node, nm) && namedBytes(result0.node, nm) <= linkBytes(result0.node))
+//@ func (*BasicDirectory).switchToSharding
+//@   assumed
+//@   ensures err == nil ==> result0 != nil && result0.hamtShardingSize == 0
+//@ func (*HAMTDirectory).needsToSwitchToBasicDir
+//@   assumed
+//@ func (*BasicDirectory).needsToSwitchToHAMTDir
+//@   assumed
+//@ func (*BasicDirectory).AddChild
+//@   assumed
+//@   modifies d.estimatedSize, d.totalLinks, fields(d.node), linkBytes(d.node), namedBytes(d.node, name)
+//@ func (*HAMTDirectory).AddChild
+//@   assumed
+//@   modifies d.sizeChange, d.totalLinks
+//@ func (*HAMTDirectory).RemoveChild
+//@   assumed
+//@   modifies d.sizeChange, d.totalLinks
+//@ func (*HAMTDirectory).GetHAMTShardingSize
+//@   inline
+//@ func (*HAMTDirectory).SetHAMTShardingSize
+//@   inline
+//@ func (*BasicDirectory).GetHAMTShardingSize
+//@   inline
+//@ func (*BasicDirectory).SetHAMTShardingSize
+//@   inline
+//@ func iface Directory.AddChild
+//@ func iface Directory.RemoveChild
+
+//@ func (*DynamicDirectory).AddChild
+//@   prop C16
+//@   arith bv
+//@   requires d != nil && isDirImpl(d.Directory) && unbox(d.Directory, "*HAMTDirectory") != nil && unbox(d.Directory, "*BasicDirectory") != nil
+//@   modifies all
+//@   ensures[threshold_kept] err == nil ==> isDirImpl(d.Directory) && shardSizeOf(d.Directory) == old(shardSizeOf(d.Directory))
+
+//@ func (*DynamicDirectory).RemoveChild
+//@   prop C16
+//@   arith bv
+//@   requires d != nil && isDirImpl(d.Directory) && unbox(d.Directory, "*HAMTDirectory") != nil && unbox(d.Directory, "*BasicDirectory") != nil
+//@   modifies all
+//@   ensures[threshold_kept] err == nil ==> isDirImpl(d.Directory) && shardSizeOf(d.Directory) == old(shardSizeOf(d.Directory))
